@@ -48,6 +48,11 @@ pub fn main(args: &[String]) {
                     }
                 }
             }
+        } else if tok == "closein" {
+            // stop reading: the client's writes fail (EPIPE) while our output stays open and silent
+            unsafe {
+                libc::close(0);
+            }
         } else if tok == "eof" {
             std::process::exit(0);
         } else if tok == "abort" {
